@@ -16,6 +16,10 @@ C20 — model of `src/streaming/state.rs` (`StateStore`, file and memory backend
   `File::create` (create/truncate), `write_all` (successively longer prefixes — it is not atomic),
   push metadata, retention `remove_dir_all` of the oldest (unlink file, then rmdir).
 * `restore` = exists? → read → parse → only then clear-and-load.
+* `checkpointSteps` / `restoreSteps` = the same procedures as the list of steps between the NUMBERED crash points of
+  the code (hook `verif_crash`), `crashAt` = the directory a process killed at point k leaves, `reopen` = a new store
+  opened on such a directory (`checkpoint_seq` = 0, no metadata). `ckSteps` is the expansion of `checkpointSteps`
+  (Theorems2.checkpointSteps_refine).
 No Mathlib import.
 -/
 namespace C20
@@ -282,5 +286,88 @@ def countCk : List Op → Nat
   | [] => 0
   | .checkpoint :: r => countCk r + 1
   | _ :: r => countCk r
+
+/-! ### the numbered crash points of `checkpoint` / `restore` (hook `verif_crash` in `streaming/state.rs`)
+
+The hook places one crash point before the first and after every effect of the file backend's `checkpoint`
+(including its retention clean-up) and `restore`; the points reached by one call are numbered 0, 1, 2 … in
+program order. A procedure is the list of its steps BETWEEN consecutive points, so a call with `n` steps has the
+points `0 … n`, and being killed at point `k` means: exactly the first `k` steps have happened. -/
+
+/-- one step of a procedure: what the code does between two consecutive crash points -/
+inductive PStep where
+  | fs (s : FsStep)                         -- a file-system effect that is one call: `create_dir_all`, `File::create`
+  | writeAll (i : Id) (bytes : List Nat)    -- `file.write_all(json)`: between its two points every prefix may be on disk
+  | removeAll (v : Id)                      -- `fs::remove_dir_all(old)`: unlink `state.json`, then rmdir
+  | mem (label : String)                    -- bookkeeping in memory only (lost with the process)
+deriving Repr, DecidableEq
+
+/-- the atomic file-system steps a procedure step consists of (`ckSteps` is the expansion of `checkpointSteps`) -/
+def PStep.expand : PStep → List FsStep
+  | .fs s => [s]
+  | .writeAll i bytes => writeSteps i bytes bytes.length
+  | .removeAll v => [.rmFile v, .rmDir v]
+  | .mem _ => []
+
+/-- the label the hook gives the crash point that FOLLOWS the step -/
+def PStep.label : PStep → String
+  | .fs (.mkdir _) => "mkdir"
+  | .fs (.create _) => "create"
+  | .fs (.write _ _) => "write"
+  | .fs (.rmFile _) => "unlink"
+  | .fs (.rmDir _) => "rmdir"
+  | .writeAll _ _ => "write"
+  | .removeAll _ => "rmtree"
+  | .mem l => l
+
+/-- `StateStore::checkpoint` on the file backend, one entry per pair of consecutive crash points:
+`begin` · create_dir_all · `mkdir` · to_string_pretty · `serialise` · File::create · `create` · write_all · `write`
+· checkpoints.push · `push` · [ checkpoints.remove(0) · `drop` · remove_dir_all · `rmtree` ] · last_checkpoint = now · `stamp` -/
+def checkpointSteps (c : Codec) (cfg : Cfg) (W : World) : List PStep :=
+  let i := newId cfg W
+  let bytes := c.ser (live W.store W.clock)
+  [.fs (.mkdir i), .mem "serialise", .fs (.create i), .writeAll i bytes, .mem "push"]
+    ++ (match victimOf cfg.maxCk W.metas i with
+        | none => []
+        | some v => [.mem "drop", .removeAll v])
+    ++ [.mem "stamp"]
+
+/-- `StateStore::restore` on the file backend: only the points the call reaches (an early `return Err` ends the list);
+every step reads, none writes the directory -/
+def restoreSteps (c : Codec) (cfg : Cfg) (W : World) (i : Id) : List PStep :=
+  if cfg.file then
+    match fget W.fs i with
+    | some (some bytes) =>
+      match c.parse bytes with
+      | none => [.mem "exists", .mem "open", .mem "read"]
+      | some _ => [.mem "exists", .mem "open", .mem "read", .mem "parse", .mem "clear", .mem "load"]
+    | _ => []
+  else []
+
+/-- label of crash point `k` of a procedure (`exit`: the call has no such point — it returns) -/
+def pointLabel (steps : List PStep) : Nat → String
+  | 0 => "begin"
+  | k + 1 => match steps[k]? with
+    | some s => s.label
+    | none => "exit"
+
+/-- a process armed to die at point `k` dies iff the call reaches that point -/
+def diesAt (steps : List PStep) (k : Nat) : Bool := decide (k ≤ steps.length)
+
+/-- the directory a process killed at crash point `k` of a procedure leaves (all steps done if `k` is past the end) -/
+def crashDir (steps : List PStep) (fs : List (Id × Option (List Nat))) (k : Nat) : List (Id × Option (List Nat)) :=
+  ((steps.take k).flatMap PStep.expand).foldl applyStep fs
+
+/-- the directory after the process was killed at crash point `k` of the checkpoint about to be taken in `W` -/
+def crashAt (c : Codec) (cfg : Cfg) (W : World) (k : Nat) : List (Id × Option (List Nat)) :=
+  crashDir (checkpointSteps c cfg W) W.fs k
+
+/-- number of atomic file-system steps done when crash point `k` is reached (index into `ckSteps`) -/
+def fineIndex (steps : List PStep) (k : Nat) : Nat := ((steps.take k).flatMap PStep.expand).length
+
+/-- a NEW `StateStore` opened at clock reading `t` on the directory a dead process left: empty map, no metadata
+(`checkpoints` lives in memory only), `checkpoint_seq = 0` -/
+def reopen (F : List (Id × Option (List Nat))) (t : Nat) : World :=
+  { store := [], clock := t, seq := 0, metas := [], fs := F }
 
 end C20
